@@ -242,3 +242,28 @@ package types
 //@   requires r != nil && r.gasPrice != nil
 //@   allocates uint256.Int
 //@   ensures result != nil && fresh(result) && u(result) == u(r.gasPrice)                                      [C16,C15]
+
+// ---- power <-> amount (1 power == 10^18 units) ---------------------------------------------------
+
+//@ func AmountToPower(amt)
+//@   nopanic
+//@   requires amt != nil && u(amt) < 2^120
+//@   assumes amountPerPower != nil && u(amountPerPower) == 10^18
+//@   allocates uint256.Int
+//@   ensures result == u(amt) / 10^18 && result >= 0                                                           [C02,C11]
+
+//@ func PowerToAmount(power)
+//@   nopanic
+//@   requires power >= 0
+//@   assumes amountPerPower != nil && u(amountPerPower) == 10^18
+//@   allocates uint256.Int
+//@   ensures result != nil && fresh(result) && u(result) == power * 10^18                                       [C02,C12]
+
+//@ func (h IGovHandler) LazyRewardBlocks()
+//@   pure
+//@   ensures result == govLazyReward[h] && 0 <= result && result < 2^40
+
+//@ func (h IAccountHandler) Reward(to, amt, exec)
+//@   requires amt != nil
+//@   modifies mem(uint256.Int), allmaps(memItems.gotItems), itemkey, itemenc
+//@   allocates Account, uint256.Int
